@@ -324,8 +324,11 @@ def gen_program(rng, tier, prop):
                 c["sc"] = c["sc"] + (0,)
             elif how == "input" and c["ins"] and len(vals) > 1:
                 c["ins"][0]["src"] = ("p", rng.choice(vals), ())
+                c["ins"][0]["rank"] = 1
             lc = add(c)
             made.append(lc)
+            if ph_free is not None and any(i["rank"] == 0 and ph_free in src_refs(i["src"])[1] for i in c["ins"]):
+                free_users.append(lc)     # a copy of a backward-link reader is itself a reader: pin it too
             if how == "rank" and c["ins"] and c["ins"][-1]["rank"] == 0 and c["ins"][-1]["src"][0] == "p":
                 add({"t": "dep", "a": lc, "b": c["ins"][-1]["src"][1]})
 
